@@ -1795,6 +1795,76 @@ def show_cond(cond):
 
 
 # ---------------------------------------------------------------------- finite-domain evaluation of extracted tables
+def _static_read(P, t):
+    """A read `TABLE[i][j]..(.field)` of a constant static / const with concrete indices: the element as a constant, else None.
+    (The table bytes are facts extracted from the compiled crate.)"""
+    path = []
+    x = t
+    while isinstance(x, tuple) and x and x[0] in ("index", "field"):
+        if x[0] == "index":
+            if not is_const(x[2]):
+                return None
+            path.append(("i", x[2][1]))
+        else:
+            path.append(("f", x[2]))
+        x = x[1]
+    key = None
+    if x[0] == "obj" and x[1][0] in ("static", "const"):
+        key = x[1][1]
+    elif x[0] == "const":
+        key = x[1]
+    v = P.values.get(key) if key else None
+    if not v or v.get("relocs"):
+        return None
+    try:
+        raw = P.value_bytes(key)
+    except Exception:
+        return None
+    tj, off = v.get("tj") or {}, 0
+    for kind, a in reversed(path):
+        if kind == "i" and tj.get("k") == "array":
+            elem = tj["of"]
+            size = _tj_size(P, elem)
+            if size is None or not (0 <= a < tj.get("len", 0)):
+                return None
+            off += a * size
+            tj = elem
+        elif kind == "f" and tj.get("k") == "adt":
+            adt = P.adts.get(tj["adt"])
+            if not adt or adt["kind"] != "struct":
+                return None
+            fs = [f for i_, f in enumerate(adt["variants"][0]["fields"]) if f["name"] == str(a) or i_ == a]
+            if not fs:
+                return None
+            off += fs[0]["offset"]
+            tj = fs[0]["tj"]
+        else:
+            return None
+    if tj.get("k") == "int":
+        w = tj["bits"] // 8
+        return ("int", int.from_bytes(raw[off:off + w], "little", signed=bool(tj.get("signed"))), tj.get("s", "u64"))
+    if tj.get("k") == "adt":
+        adt = P.adts.get(tj["adt"])
+        if adt and adt["kind"] == "struct" and len(adt["variants"][0]["fields"]) == 1 and adt["variants"][0]["fields"][0]["tj"].get("k") == "int":
+            f = adt["variants"][0]["fields"][0]
+            w = f["tj"]["bits"] // 8
+            o2 = off + f["offset"]
+            return ("adt", tj["adt"], adt["variants"][0]["name"], (("int", int.from_bytes(raw[o2:o2 + w], "little", signed=bool(f["tj"].get("signed"))), f["tj"].get("s", "u64")),))
+    return None
+
+
+def _tj_size(P, tj):
+    if tj.get("k") == "int":
+        return tj["bits"] // 8
+    if tj.get("k") == "array":
+        s = _tj_size(P, tj["of"])
+        return None if s is None else s * tj.get("len", 0)
+    if tj.get("k") == "adt":
+        a = P.adts.get(tj["adt"])
+        return a.get("size") if a else None
+    return None
+
+
 def concretize(eng, t, env):
     """Rebuild term `t` with the opaque leaves in `env` replaced by concrete terms, refolding constants.
     This evaluates the *extracted summary* over a finite input domain; no repository code runs."""
@@ -1803,6 +1873,15 @@ def concretize(eng, t, env):
     if t in env:
         return env[t]
     k = t[0]
+    if k in ("index", "field"):
+        sub = (k, concretize(eng, t[1], env)) + tuple(concretize(eng, x, env) if isinstance(x, tuple) else x for x in t[2:])
+        r = _static_read(eng.P, sub)
+        if r is not None:
+            return r
+        if sub != t:
+            t = sub
+            if t in env:
+                return env[t]
     if k in ("int", "param", "str", "fn", "zst", "const", "static", "scalar"):
         return t
     if k == "obj":
